@@ -56,6 +56,15 @@ def run(ctx):
                         "values are small rationals; floats compared at 1e-9"]
     rng = random.Random(ctx.seed + 4)
     pools = [make_pool(rng, i + 1) for i in range(6 if ctx.thorough else 3)]
+    # a pool over FOUR variables with a 4-variable and a 3-variable factor: products of nested scopes that share 3 variables
+    # (with 3 shared axes the relative axis order can be a permutation that is not its own inverse)
+    p4 = make_pool(rng, len(pools) + 1, nvars=4, nfac=3, maxcard=2, zeros=False)
+    vs4 = VARS[:4]
+    for fac, sc in ((p4["factors"][0], vs4), (p4["factors"][1], sorted(rng.sample(vs4, 3)))):
+        fac["scope"] = list(sc)
+        fac["cells"] = [{"a": dict(zip(sc, combo)), "n": rng.randint(1, 9), "d": 1} for combo in itertools.product(*[p4["dom"][v] for v in sc])]
+    p4["factors"][2] = json.loads(json.dumps(p4["factors"][1]))
+    pools.append(p4)
     f = os.path.join(ctx.work, "pools.json")
     with open(f, "w") as fh:
         json.dump(pools, fh)
